@@ -80,11 +80,19 @@ def run(tier):
     lv = liveness(tier)
     out, viols, sample, nb = replay(tier)
     import props.c01trace as c01trace
-    tr = c01trace.run_traces(tier)
-    viols += tr['violations']
     import props.c02blocks as c02blocks
-    bl = c02blocks.run_blocks(tier)
-    viols += bl['violations']
+    try:
+        tr = c01trace.run_traces(tier)
+        viols += tr['violations']
+        bl = c02blocks.run_blocks(tier)
+        viols += bl['violations']
+    except vlib.Infra:
+        # a later stage broke down (e.g. the recorder hangs because requests are never answered): violations already
+        # established by the replay against the real code stand; without them it is an infrastructure failure
+        if not [v for v in viols if v['property'] == 'C01' or v['kind'] == 'conformance']:
+            raise
+        tr = {'violations': [], 'traces': 0, 'stats': {'aborted': True}, 'sample': []}
+        bl = {'violations': [], 'stats': {'aborted': True}}
     mine = [v for v in viols if v['property'] == 'C01' or v['kind'] == 'conformance']
     cov = {
         'states': mc['states'], 'transitions': mc['transitions'],
